@@ -163,8 +163,31 @@ def chk_C02(c, ans):
 
 # ================================================================================================ C03 / C04 / C05 / C19 arithmetic bounds
 
+def limit_low(r, h):
+    u = fp.ulp(h)
+    lim = fp.rn(u / 2)
+    q = fp.rn(u / 4)
+    return r.choice([lim, math.nextafter(lim, 0.0), q, math.nextafter(q, 0.0), math.nextafter(q, math.inf), math.nextafter(math.nextafter(lim, 0.0), 0.0)]) * r.choice([1, -1])
+
+def deep_cancel_pair(r, emin, emax):
+    """~106 bits of cancellation: adjacent or equal high words of opposite sign, BOTH low words at / next to the half- or quarter-ulp limit"""
+    h = fp.mant_exp(r, r.rng(emin, emax - 1))
+    if r.below(3) == 0:
+        h = math.ldexp(1.0, r.rng(emin, emax - 1)) * r.choice([1, -1])      # power of two: asymmetric neighbours
+    la = limit_low(r, h)
+    a = (h, la) if fp.is_valid(h, la) else (h, 0.0)
+    nh = -h
+    for _ in range(r.below(3)):
+        nh = math.nextafter(nh, r.choice([math.inf, -math.inf]))
+    lb = limit_low(r, nh)
+    b = (nh, lb) if fp.is_valid(nh, lb) else (nh, -a[1] if fp.is_valid(nh, -a[1]) else 0.0)
+    return a, b
+
 def arith_pairs(r, n, emin, emax, cancel=False):
     for _ in range(n):
+        if cancel and r.below(8) == 0:
+            yield deep_cancel_pair(r, emin, emax)
+            continue
         a = tf_in(r, emin, emax)
         k = r.below(8)
         if cancel and k < 3:
